@@ -108,31 +108,30 @@ package table
 // The metadata store as the manager sees it: a linearizable compare-and-set register map (property
 // C13, proved on storage/kv: LFSM.Update rejects a set/delete of an existing key whose version
 // differs; RaftStore maps the rejection to ErrVersionMismatch). Other nodes write between any two
-// calls, so nothing is assumed about the store's content across calls. What a call observed or did
-// at its linearization point is recorded in ghost fields of the handle:
-//   rKey/rHas/rPair          the last Get: key, whether it existed, the pair it returned
-//   nw                        number of successful writes (Set/Delete) through this handle
-//   wKey/wVal/wVer/wDel       the last successful write
-//   wPrevHas/wPrev            the record that write replaced (absent, or a record whose version is wVer)
-//@ ghostfield any.rKey string
-//@ ghostfield any.rHas Bool
-//@ ghostfield any.rPair kv.Pair
-//@ ghostfield any.nw Int
-//@ ghostfield any.wKey string
-//@ ghostfield any.wVal string
-//@ ghostfield any.wVer uint64
-//@ ghostfield any.wDel Bool
-//@ ghostfield any.wPrevHas Bool
-//@ ghostfield any.wPrev kv.Pair
+// calls, so nothing is assumed about the store's content across calls. What the calls through this
+// handle observed or did at their linearization points is recorded per key in ghost fields:
+//   rHas[k]/rPair[k]          the last Get of k: whether it existed, the pair it returned
+//   nwk[k]                    number of successful writes (Set/Delete) of k through this handle
+//   wVal[k]/wVer[k]/wDel[k]   the last successful write of k
+//   wPrevHas[k]/wPrev[k]      the record that write replaced (absent, or a record whose version is wVer[k])
+//@ ghostfield any.rHas map[string]Bool
+//@ ghostfield any.rPair map[string]kv.Pair
+//@ ghostfield any.nwk map[string]Int
+//@ ghostfield any.wVal map[string]string
+//@ ghostfield any.wVer map[string]uint64
+//@ ghostfield any.wDel map[string]Bool
+//@ ghostfield any.wPrevHas map[string]Bool
+//@ ghostfield any.wPrev map[string]kv.Pair
 
 //@ iface table.store.Get
 //@   assumed
 //@   params s, key
 //@   results p, err
-//@   ensures s.rKey == key && s.rHas == (err == nil)
-//@   ensures err == nil ==> s.rPair == p && p.Ver > 0 && p.Key == key
+//@   ensures s.rHas[key] == (err == nil)
+//@   ensures err == nil ==> s.rPair[key] == p && p.Ver > 0 && p.Key == key
 //@   ensures err != nil ==> p == kv.Pair{}
-//@   modifies s.rKey, s.rHas, s.rPair
+//@   ensures forall k string :: k != key ==> s.rHas[k] == old(s.rHas[k]) && s.rPair[k] == old(s.rPair[k])
+//@   modifies s.rHas, s.rPair
 
 //@ iface table.store.Exists
 //@   assumed
@@ -145,18 +144,20 @@ package table
 //@   assumed
 //@   params s, key, value, ver
 //@   results p, err
-//@   ensures err == nil ==> s.nw == old(s.nw) + 1 && s.wKey == key && s.wVal == value && s.wVer == ver && !s.wDel && (s.wPrevHas ==> s.wPrev.Ver == ver && s.wPrev.Ver > 0 && s.wPrev.Key == key)
+//@   ensures err == nil ==> s.nwk[key] == old(s.nwk[key]) + 1 && s.wVal[key] == value && s.wVer[key] == ver && !s.wDel[key] && (s.wPrevHas[key] ==> s.wPrev[key].Ver == ver && s.wPrev[key].Ver > 0 && s.wPrev[key].Key == key)
 //@   ensures err == nil ==> p.Key == key && p.Value == value && p.Ver > 0
-//@   ensures err != nil ==> s.nw == old(s.nw) && s.wKey == old(s.wKey) && s.wVal == old(s.wVal) && s.wVer == old(s.wVer) && s.wDel == old(s.wDel) && s.wPrevHas == old(s.wPrevHas) && s.wPrev == old(s.wPrev)
-//@   modifies s.nw, s.wKey, s.wVal, s.wVer, s.wDel, s.wPrevHas, s.wPrev
+//@   ensures err != nil ==> s.nwk[key] == old(s.nwk[key]) && s.wVal[key] == old(s.wVal[key]) && s.wVer[key] == old(s.wVer[key]) && s.wDel[key] == old(s.wDel[key]) && s.wPrevHas[key] == old(s.wPrevHas[key]) && s.wPrev[key] == old(s.wPrev[key])
+//@   ensures forall k string :: k != key ==> s.nwk[k] == old(s.nwk[k]) && s.wVal[k] == old(s.wVal[k]) && s.wVer[k] == old(s.wVer[k]) && s.wDel[k] == old(s.wDel[k]) && s.wPrevHas[k] == old(s.wPrevHas[k]) && s.wPrev[k] == old(s.wPrev[k])
+//@   modifies s.nwk, s.wVal, s.wVer, s.wDel, s.wPrevHas, s.wPrev
 
 //@ iface table.store.Delete
 //@   assumed
 //@   params s, key, ver
 //@   results err
-//@   ensures err == nil ==> s.nw == old(s.nw) + 1 && s.wKey == key && s.wVer == ver && s.wDel && (s.wPrevHas ==> s.wPrev.Ver == ver && s.wPrev.Ver > 0 && s.wPrev.Key == key)
-//@   ensures err != nil ==> s.nw == old(s.nw) && s.wKey == old(s.wKey) && s.wVal == old(s.wVal) && s.wVer == old(s.wVer) && s.wDel == old(s.wDel) && s.wPrevHas == old(s.wPrevHas) && s.wPrev == old(s.wPrev)
-//@   modifies s.nw, s.wKey, s.wVal, s.wVer, s.wDel, s.wPrevHas, s.wPrev
+//@   ensures err == nil ==> s.nwk[key] == old(s.nwk[key]) + 1 && s.wVer[key] == ver && s.wDel[key] && (s.wPrevHas[key] ==> s.wPrev[key].Ver == ver && s.wPrev[key].Ver > 0 && s.wPrev[key].Key == key)
+//@   ensures err != nil ==> s.nwk[key] == old(s.nwk[key]) && s.wVal[key] == old(s.wVal[key]) && s.wVer[key] == old(s.wVer[key]) && s.wDel[key] == old(s.wDel[key]) && s.wPrevHas[key] == old(s.wPrevHas[key]) && s.wPrev[key] == old(s.wPrev[key])
+//@   ensures forall k string :: k != key ==> s.nwk[k] == old(s.nwk[k]) && s.wVal[k] == old(s.wVal[k]) && s.wVer[k] == old(s.wVer[k]) && s.wDel[k] == old(s.wDel[k]) && s.wPrevHas[k] == old(s.wPrevHas[k]) && s.wPrev[k] == old(s.wPrev[k])
+//@   modifies s.nwk, s.wVal, s.wVer, s.wDel, s.wPrevHas, s.wPrev
 
 //@ iface table.store.GetAll
 //@   assumed
@@ -168,6 +169,9 @@ package table
 //@   assumed
 //@   ensures result == "/tables/" + name
 //@   modifies nothing
+
+// no successful write through the handle except to key a (and b)
+//@ pure func onlyWrote(s store, a string, b string) bool = forall k string :: k != a && k != b ==> s.nwk[k] == old(s.nwk[k])
 
 // ---------------------------------------------------------------- replication lease (C15)
 
@@ -190,32 +194,32 @@ package table
 // the lease recorded in a pair
 //@ pure func leaseIn(p kv.Pair) Lease = leaseOf(bytesOf(p.Value))
 
-// LeaseTable reads the lease record once and writes at most once; a successful call is exactly one
-// compare-and-set of the lease key, with the version it read (0 when it read no record), of a lease
-// in its own name that ends `lease` after a clock reading; and it wrote only because the record it
-// read was absent, its own, or expired at a clock reading.
+// LeaseTable reads the lease record once and writes at most once, and only the lease key; a
+// successful call is exactly one compare-and-set of the lease key, with the version it read (0 when
+// it read no record), of a lease in its own name that ends `lease` after a clock reading; and it
+// wrote only because the record it read was absent, its own, or expired at a clock reading.
 //@ func (*Manager).LeaseTable
 //@   params m, name, lease
 //@   results err
 //@   requires m != nil && m.store != nil
-//@   ensures [C15.onewrite] m.store.nw <= old(m.store.nw) + 1
-//@   ensures [C15.fail.nowrite] err != nil ==> m.store.nw == old(m.store.nw)
-//@   ensures [C15.cas] err == nil ==> m.store.nw == old(m.store.nw) + 1 && m.store.rKey == leaseKey(name) && m.store.wKey == leaseKey(name) && !m.store.wDel && m.store.wVer == (m.store.rHas ? m.store.rPair.Ver : 0)
-//@   ensures [C15.own] err == nil ==> leaseOf(bytesOf(m.store.wVal)).ID == m.cfg.NodeID && tns(leaseOf(bytesOf(m.store.wVal)).Until) == world.clock + lease
-//@   ensures [C15.decide] err == nil ==> !m.store.rHas || leaseIn(m.store.rPair).ID == m.cfg.NodeID || tns(leaseIn(m.store.rPair).Until) < world.clock
+//@   ensures [C15.onewrite] m.store.nwk[leaseKey(name)] <= old(m.store.nwk[leaseKey(name)]) + 1 && forall k string :: k != leaseKey(name) ==> m.store.nwk[k] == old(m.store.nwk[k])
+//@   ensures [C15.fail.nowrite] err != nil ==> m.store.nwk[leaseKey(name)] == old(m.store.nwk[leaseKey(name)])
+//@   ensures [C15.cas] err == nil ==> m.store.nwk[leaseKey(name)] == old(m.store.nwk[leaseKey(name)]) + 1 && !m.store.wDel[leaseKey(name)] && m.store.wVer[leaseKey(name)] == (m.store.rHas[leaseKey(name)] ? m.store.rPair[leaseKey(name)].Ver : 0)
+//@   ensures [C15.own] err == nil ==> leaseOf(bytesOf(m.store.wVal[leaseKey(name)])).ID == m.cfg.NodeID && tns(leaseOf(bytesOf(m.store.wVal[leaseKey(name)])).Until) == world.clock + lease
+//@   ensures [C15.decide] err == nil ==> !m.store.rHas[leaseKey(name)] || leaseIn(m.store.rPair[leaseKey(name)]).ID == m.cfg.NodeID || tns(leaseIn(m.store.rPair[leaseKey(name)]).Until) < world.clock
 //@   ensures [C15.clock] world.clock >= old(world.clock)
-//@   modifies m.store.rKey, m.store.rHas, m.store.rPair, m.store.nw, m.store.wKey, m.store.wVal, m.store.wVer, m.store.wDel, m.store.wPrevHas, m.store.wPrev, world.clock
+//@   modifies m.store.rHas, m.store.rPair, m.store.nwk, m.store.wVal, m.store.wVer, m.store.wDel, m.store.wPrevHas, m.store.wPrev, world.clock
 
 // ReturnTable deletes only with the version of a record it read and found to be its own.
 //@ func (*Manager).ReturnTable
 //@   params m, name
 //@   results returned, err
 //@   requires m != nil && m.store != nil
-//@   ensures [C15.return.onewrite] m.store.nw <= old(m.store.nw) + 1
-//@   ensures [C15.return.nowrite] !returned ==> m.store.nw == old(m.store.nw)
-//@   ensures [C15.return.cas] returned ==> err == nil && m.store.nw == old(m.store.nw) + 1 && m.store.wDel && m.store.rKey == leaseKey(name) && m.store.wKey == leaseKey(name) && m.store.rHas && m.store.wVer == m.store.rPair.Ver
-//@   ensures [C15.return.own] returned ==> leaseIn(m.store.rPair).ID == m.cfg.NodeID
-//@   modifies m.store.rKey, m.store.rHas, m.store.rPair, m.store.nw, m.store.wKey, m.store.wVal, m.store.wVer, m.store.wDel, m.store.wPrevHas, m.store.wPrev
+//@   ensures [C15.return.onewrite] m.store.nwk[leaseKey(name)] <= old(m.store.nwk[leaseKey(name)]) + 1 && forall k string :: k != leaseKey(name) ==> m.store.nwk[k] == old(m.store.nwk[k])
+//@   ensures [C15.return.nowrite] !returned ==> m.store.nwk[leaseKey(name)] == old(m.store.nwk[leaseKey(name)])
+//@   ensures [C15.return.cas] returned ==> err == nil && m.store.nwk[leaseKey(name)] == old(m.store.nwk[leaseKey(name)]) + 1 && m.store.wDel[leaseKey(name)] && m.store.rHas[leaseKey(name)] && m.store.wVer[leaseKey(name)] == m.store.rPair[leaseKey(name)].Ver
+//@   ensures [C15.return.own] returned ==> leaseIn(m.store.rPair[leaseKey(name)]).ID == m.cfg.NodeID
+//@   modifies m.store.rHas, m.store.rPair, m.store.nwk, m.store.wVal, m.store.wVer, m.store.wDel, m.store.wPrevHas, m.store.wPrev
 
 // From the per-call contracts to mutual exclusion. Versions identify records (a successful set gives
 // the key a version larger than every earlier one: C13.version.fresh), so a compare-and-set that
@@ -240,3 +244,145 @@ package table
 //@   requires wPrevHas ==> wPrev.Ver == wVer
 //@   requires leaseIn(rPair).ID == me
 //@   ensures [C15.return.mutex] !wPrevHas || leaseIn(wPrev).ID == me
+
+// ---------------------------------------------------------------- table catalogue (C14)
+
+//@ func validateTableName
+//@   ensures [C14.keyspace.valid] result == nil <==> noSlash(name)
+//@   modifies nothing
+
+//@ import strconv "strconv"
+//@ import strings "strings"
+
+// decimal rendering of the id sequence and JSON of the catalogue records: inverse uninterpreted functions
+//@ uninterp func parseU(s string) uint64
+//@ uninterp func fmtU(n uint64) string
+//@ axiom forall n uint64 :: parseU(fmtU(n)) == n
+//@ func strconv.ParseUint
+//@   assumed
+//@   params s, base, bitSize
+//@   results n, err
+//@   ensures err == nil ==> n == parseU(s)
+//@   modifies nothing
+//@ func strconv.FormatUint
+//@   assumed
+//@   params i, base
+//@   ensures result == fmtU(i)
+//@   modifies nothing
+//@ uninterp func tableOf(b Bytes) Table
+//@ func json.Unmarshal<*table.Table>
+//@   assumed
+//@   params data, v
+//@   results err
+//@   ensures err == nil ==> *asType(v, *table.Table) == tableOf(bytesOf(data))
+//@   modifies fields(asType(v, *table.Table))
+//@ func json.Marshal<*table.Table>
+//@   assumed
+//@   params v
+//@   results data, err
+//@   ensures err == nil ==> fresh(data) && tableOf(bytesOf(data)) == *asType(v, *table.Table)
+//@   modifies nothing
+//@ func strings.Contains
+//@   assumed
+//@   pure
+//@   params s, substr
+//@   ensures len(substr) == 1 ==> (result <==> exists i int :: 0 <= i && i < len(s) && s[i] == substr[0])
+
+// The catalogue key space: "/tables/<name>" holds the record of table <name>, "/tables/sys/idseq"
+// the id sequence and "/tables/<t>/lease" the replication lease of table t. A name is a valid
+// catalogue name iff it contains no '/' (47): exactly then its record key cannot coincide with the
+// sequence key, with any lease key, or with the record key of another name (lemma keySpace), and
+// the listing pattern "/tables/*" (which does not cross '/') finds it.
+//@ const seqKey = "/tables/sys/idseq"
+//@ pure func tkey(name string) string = "/tables/" + name
+//@ pure func noSlash(name string) bool = forall i int :: 0 <= i && i < len(name) ==> name[i] != 47
+
+//@ lemma keySpace(name string, t string)
+//@   requires noSlash(name)
+//@   assert len(name) == 9 ==> tkey(name)[11] == name[3]
+//@   assert seqKey[11] == 47
+//@   ensures [C14.keyspace.seq] tkey(name) != seqKey
+//@   assert len(name) == len(t) + 6 ==> tkey(name)[8 + len(t)] == name[len(t)]
+//@   assert leaseKey(t)[8 + len(t)] == 47
+//@   ensures [C14.keyspace.lease] tkey(name) != leaseKey(t)
+
+// incAndGetIDSeq: one read of the sequence record and at most one write, a compare-and-set with the
+// version read (0 when the record did not exist) of the successor of the value read (10000 when the
+// record did not exist); the successor is what is returned.
+//@ func (*Manager).incAndGetIDSeq
+//@   wrapping
+//@   params m
+//@   results next, err
+//@   requires m != nil && m.store != nil
+//@   ensures [C14.seq.onewrite] m.store.nwk[seqKey] <= old(m.store.nwk[seqKey]) + 1 && forall k string :: k != seqKey ==> m.store.nwk[k] == old(m.store.nwk[k])
+//@   ensures [C14.seq.fail] err != nil ==> m.store.nwk[seqKey] == old(m.store.nwk[seqKey])
+//@   ensures [C14.seq.cas] err == nil ==> m.store.nwk[seqKey] == old(m.store.nwk[seqKey]) + 1 && !m.store.wDel[seqKey] && m.store.wVer[seqKey] == (m.store.rHas[seqKey] ? m.store.rPair[seqKey].Ver : 0) && parseU(m.store.wVal[seqKey]) == next
+//@   ensures [C14.seq.next] err == nil && (m.store.rHas[seqKey] ? parseU(m.store.rPair[seqKey].Value) : 10000) < 18446744073709551615 ==> next == (m.store.rHas[seqKey] ? parseU(m.store.rPair[seqKey].Value) : 10000) + 1
+//@   modifies m.store.rHas, m.store.rPair, m.store.nwk, m.store.wVal, m.store.wVer, m.store.wDel, m.store.wPrevHas, m.store.wPrev
+
+// the id handed out is larger than the sequence value it replaced: with "versions identify
+// records" the value replaced is the value read, and the sequence only ever grows - so every id
+// assigned before (each was once the sequence value) is smaller. Never-reused ids follow, also
+// across delete/recreate and restore, which draw from the same sequence.
+//@ lemma idFresh(rHas Bool, rPair kv.Pair, wPrevHas Bool, wPrev kv.Pair, wVer uint64, next uint64)
+//@   requires rHas ==> rPair.Ver > 0
+//@   requires rHas && wPrevHas && rPair.Ver == wPrev.Ver ==> rPair == wPrev
+//@   requires wVer == (rHas ? rPair.Ver : 0)
+//@   requires wPrevHas ==> wPrev.Ver == wVer && wPrev.Ver > 0
+//@   requires (rHas ? parseU(rPair.Value) : 10000) < 18446744073709551615 && next == (rHas ? parseU(rPair.Value) : 10000) + 1
+//@   ensures [C14.id.fresh] wPrevHas ==> next > parseU(wPrev.Value)
+//@   ensures [C14.id.first] !rHas ==> next == 10001
+
+//@ func (*Manager).setTableVersion
+//@   params m, tbl, version
+//@   results err
+//@   requires m != nil && m.store != nil
+//@   ensures [C14.set.onewrite] m.store.nwk[tkey(tbl.Name)] <= old(m.store.nwk[tkey(tbl.Name)]) + 1 && forall k string :: k != tkey(tbl.Name) ==> m.store.nwk[k] == old(m.store.nwk[k])
+//@   ensures [C14.set.fail] err != nil ==> m.store.nwk[tkey(tbl.Name)] == old(m.store.nwk[tkey(tbl.Name)])
+//@   ensures [C14.set.cas] err == nil ==> m.store.nwk[tkey(tbl.Name)] == old(m.store.nwk[tkey(tbl.Name)]) + 1 && !m.store.wDel[tkey(tbl.Name)] && m.store.wVer[tkey(tbl.Name)] == version && tableOf(bytesOf(m.store.wVal[tkey(tbl.Name)])) == tbl
+//@   ensures [C14.set.frame] forall k string :: k != tkey(tbl.Name) ==> m.store.wVal[k] == old(m.store.wVal[k]) && m.store.wVer[k] == old(m.store.wVer[k]) && m.store.wDel[k] == old(m.store.wDel[k]) && m.store.wPrevHas[k] == old(m.store.wPrevHas[k]) && m.store.wPrev[k] == old(m.store.wPrev[k])
+//@   modifies m.store.nwk, m.store.wVal, m.store.wVer, m.store.wDel, m.store.wPrevHas, m.store.wPrev
+
+//@ func (*Manager).getTableVersion
+//@   params m, name
+//@   results tab, ver, err
+//@   requires m != nil && m.store != nil
+//@   ensures [C14.get] err == nil ==> m.store.rHas[tkey(name)] && ver == m.store.rPair[tkey(name)].Ver && tab == tableOf(bytesOf(m.store.rPair[tkey(name)].Value))
+//@   ensures [C14.get.notfound] !m.store.rHas[tkey(name)] ==> err != nil
+//@   ensures forall k string :: k != tkey(name) ==> m.store.rHas[k] == old(m.store.rHas[k]) && m.store.rPair[k] == old(m.store.rPair[k])
+//@   modifies m.store.rHas, m.store.rPair
+
+// createTable: writes only the sequence record and the record of `name`; success is exactly one
+// successful compare-and-set of each: the record is written with version 0 - which succeeds only if
+// no record of that name exists (lemma createUnique), so of racing creations at most one succeeds -
+// and carries (name, id) with the fresh id drawn from the sequence. Only valid catalogue names
+// are ever created.
+//@ func (*Manager).createTable
+//@   params m, name
+//@   results tab, err
+//@   requires m != nil && m.store != nil
+//@   use keySpace(name, name)
+//@   ensures [C14.create.frame] forall k string :: k != tkey(name) && k != seqKey ==> m.store.nwk[k] == old(m.store.nwk[k])
+//@   ensures [C14.keyspace.create] err == nil ==> noSlash(name)
+//@   ensures [C14.create.cas] err == nil ==> m.store.nwk[tkey(name)] == old(m.store.nwk[tkey(name)]) + 1 && !m.store.wDel[tkey(name)] && m.store.wVer[tkey(name)] == 0 && tableOf(bytesOf(m.store.wVal[tkey(name)])) == Table{Name: name, ClusterID: tab.ClusterID} && tab.Name == name && tab.RecoverID == 0
+//@   ensures [C14.create.id] err == nil ==> m.store.nwk[seqKey] == old(m.store.nwk[seqKey]) + 1 && tab.ClusterID == parseU(m.store.wVal[seqKey]) && m.store.wVer[seqKey] == (m.store.rHas[seqKey] ? m.store.rPair[seqKey].Ver : 0)
+//@   ensures [C14.create.fail] err != nil ==> m.store.nwk[tkey(name)] == old(m.store.nwk[tkey(name)]) || tkey(name) == seqKey
+//@   modifies m.store.rHas, m.store.rPair, m.store.nwk, m.store.wVal, m.store.wVer, m.store.wDel, m.store.wPrevHas, m.store.wPrev
+
+// a compare-and-set with version 0 succeeds only against an absent record
+//@ lemma createUnique(wPrevHas Bool, wPrev kv.Pair, wVer uint64)
+//@   requires wVer == 0
+//@   requires wPrevHas ==> wPrev.Ver == wVer && wPrev.Ver > 0
+//@   ensures [C14.create.unique] !wPrevHas
+
+// DeleteTable: succeeds only for a record it read, removes it with a compare-and-set on the version
+// read, writes nothing else, and only for valid catalogue names.
+//@ func (*Manager).DeleteTable
+//@   params m, name
+//@   results err
+//@   requires m != nil && m.store != nil
+//@   ensures [C14.delete.frame] forall k string :: k != tkey(name) ==> m.store.nwk[k] == old(m.store.nwk[k])
+//@   ensures [C14.keyspace.delete] err == nil ==> noSlash(name)
+//@   ensures [C14.delete.cas] err == nil ==> m.store.rHas[tkey(name)] && m.store.nwk[tkey(name)] == old(m.store.nwk[tkey(name)]) + 1 && m.store.wDel[tkey(name)] && m.store.wVer[tkey(name)] == m.store.rPair[tkey(name)].Ver
+//@   ensures [C14.delete.fail] err != nil ==> m.store.nwk[tkey(name)] == old(m.store.nwk[tkey(name)])
+//@   modifies m.store.rHas, m.store.rPair, m.store.nwk, m.store.wVal, m.store.wVer, m.store.wDel, m.store.wPrevHas, m.store.wPrev
